@@ -613,6 +613,18 @@ func (env *SpecEnv) call(e *SExpr) specVal {
 // callSpec applies a spec function, declaring/defining it on first use.
 func (env *SpecEnv) callSpec(sf *SpecFunc, args []specVal) specVal {
 	fx := env.fx
+	if sf.Ghost {
+		if len(args) != 1 {
+			env.fail("ghost %s takes one argument", sf.Name)
+		}
+		rt, err := fx.e.resolveType(sf.Pkg, sf.Ret)
+		if err != nil {
+			env.fail("ghost %s: %v", sf.Name, err)
+		}
+		key := refKey(args[0].t)
+		h := fx.heapGet(env.st, "G_"+sf.Name, ArrSort(SInt, fx.e.sortOf(rt)))
+		return specVal{Select(h, key), rt}
+	}
 	if len(args) != len(sf.Params) {
 		env.fail("spec function %s: want %d args, got %d", sf.Name, len(sf.Params), len(args))
 	}
@@ -682,6 +694,7 @@ type assignLoc struct {
 	whole   string // whole heap component
 	ref     *Term
 	refKind string
+	gsort   Sort
 }
 
 // assignLoc resolves an assigns target: x.f, heap(T.f), elems(s), *p
@@ -740,7 +753,15 @@ func (env *SpecEnv) assignLoc(e *SExpr) *assignLoc {
 			x := env.expr(e.Args[0])
 			return &assignLoc{ref: x.t, refKind: "pcell"}
 		case "ghost":
-			return &assignLoc{whole: "G_" + e.Args[0].String()}
+			sf := fx.e.findSpec(env.pkg, e.Args[0].String())
+			if sf == nil || !sf.Ghost {
+				env.fail("unknown ghost state %s", e.Args[0])
+			}
+			rt, err := fx.e.resolveType(sf.Pkg, sf.Ret)
+			if err != nil {
+				env.fail("%v", err)
+			}
+			return &assignLoc{whole: "G_" + sf.Name, gsort: ArrSort(SInt, fx.e.sortOf(rt))}
 		}
 	}
 	env.fail("unsupported assigns target %s", e)
@@ -763,4 +784,15 @@ func splitQuant(e *SExpr) (binders []*SExpr, body *SExpr, pats []*SExpr) {
 		return nil, nil, nil
 	}
 	return args[:len(args)-1], args[len(args)-1], pats
+}
+
+// refKey maps a value to the integer key of its ghost state.
+func refKey(t *Term) *Term {
+	switch t.S {
+	case SIfc:
+		return IfcPtr(t)
+	case SSlc:
+		return SlcBase(t)
+	}
+	return t
 }
